@@ -26,6 +26,7 @@ type fScenario struct {
 	Cfgs        []InstCfg `json:"cfgs"`
 	FromRootsAt int       `json:"from_roots_at"` // op index before which a NewMapPollardFromRoots(partial) instance joins; -1 = never
 	Ops         []fOp     `json:"ops"`
+	LeafMode    string    `json:"leaf_mode,omitempty"` // World.SetLeafMode
 }
 
 type fGenOpts struct {
@@ -158,6 +159,10 @@ type fSnap struct {
 // library call on honest input (site, clause, trigger, detail).
 func runForest(c *core.Ctx, s fScenario, setupFail failFn, obs fObserver) *World {
 	w := NewWorld(s.Tag, s.Cfgs)
+	w.SetLeafMode(s.LeafMode)
+	if s.LeafMode != "" {
+		c.Count("scenarios_with_leaf_mode_"+s.LeafMode, 1)
+	}
 	var snaps []fSnap
 	st := &fState{W: w}
 	slotsToHashes := func(slots []int) []Hash {
@@ -334,7 +339,7 @@ func runForest(c *core.Ctx, s fScenario, setupFail failFn, obs fObserver) *World
 				case 1: // a dead leaf, if any
 					bogus = rm.FreshHash(s.Tag, uint64(oi)+1<<20)
 					for sl, a := range w.M.Alive {
-						if !a {
+						if _, liveAgain := f.LeafPos[w.M.Leaves[sl]]; !a && !liveAgain {
 							bogus = w.M.Leaves[sl]
 							break
 						}
